@@ -782,6 +782,19 @@ def normalise(prog: Program) -> Tuple[Program, List[str]]:
         if ng:
             changed_alias = True
             log.append(f"{fn.qualname} ({ng} any/all over a literal tuple unrolled)")
+        if any(isinstance(n, ast.Assign) and isinstance(n.value, ast.IfExp) and len(n.targets) == 1 and isinstance(n.targets[0], ast.Name) for n in ast.walk(fn.node)) and body_hash(fn.node) not in _inventory()[1]:
+            # ``x = a if c else b`` at statement level -> if/else (only in functions that differ from the reference tree:
+            # the rules were written against the reference spelling)
+            class _S(_IfExpSplitter):
+                def visit_Assign(self, node):
+                    if isinstance(node.value, ast.IfExp) and len(node.targets) == 1 and isinstance(node.targets[0], ast.Name):
+                        return super().visit_Assign(node)
+                    return node
+
+            _S().visit(fn.node)
+            ast.fix_missing_locations(fn.node)
+            changed_alias = True
+            log.append(f"{fn.qualname} (conditional-expression assignments split)")
     if changed_alias:
         trees = {m.relpath: m.tree for m in prog.modules.values()}
         prog = Program(prog.root, override_trees=trees)
